@@ -1,7 +1,9 @@
 ------------------------------ MODULE TraceCMS ------------------------------
 (* Traces of the real CountMinSketch.  ndjson:                                            *)
 (*  {"e":"begin","depth":d}                                                               *)
-(*  {"e":"update","item":id,"w":w,"queries":[[id, result],...], "rowsums":[...]}           *)
+(*  {"e":"update","items":[id,...],"w":w,"queries":[[id, result],...], "rowsums":[...]}    *)
+(* one call: add(x, w) has items = [x]; batch_add(lst, w) carries the whole list (every   *)
+(* occurrence of an item adds w to its true weight, and w to the total)                   *)
 (* queries are the real query() results, after the update, for every item seen so far     *)
 (* and for one item never added (id 0).  TLC keeps the ghosts of CMS.tla (truth per item, *)
 (* total weight) and accepts an event iff the property's clauses hold on it: NeverUnder,  *)
@@ -16,16 +18,18 @@ Begin == /\ l <= Len(Trace) /\ Trace[l].e = "begin"
          /\ truth' = <<>> /\ total' = 0 /\ depth' = Trace[l].depth /\ l' = l + 1
 Update == /\ l <= Len(Trace) /\ Trace[l].e = "update"
           /\ LET ev == Trace[l]
-                 t1 == [x \in (DOMAIN truth) \cup {ev.item} |-> Get(truth, x) + (IF x = ev.item THEN ev.w ELSE 0)]
+                 its == {ev.items[k] : k \in DOMAIN ev.items}
+                 t1 == [x \in (DOMAIN truth) \cup its |-> Get(truth, x) + ev.w * Cardinality({k \in DOMAIN ev.items : ev.items[k] = x})]
+                 tot1 == total + ev.w * Len(ev.items)
              IN /\ ev.w >= 0
                 /\ \A j \in DOMAIN ev.queries :
                       LET qq == ev.queries[j] IN
                       /\ qq[2] >= Get(t1, qq[1])                                   \* NeverUnder
-                      /\ qq[2] <= total + ev.w                                     \* NeverOverTotal
-                /\ \E j \in DOMAIN ev.queries : ev.queries[j][1] = ev.item          \* the updated item was queried
+                      /\ qq[2] <= tot1                                     \* NeverOverTotal
+                /\ \A x \in its : \E j \in DOMAIN ev.queries : ev.queries[j][1] = x        \* the updated items were queried
                 /\ Len(ev.rowsums) = depth
-                /\ \A i \in DOMAIN ev.rowsums : ev.rowsums[i] = total + ev.w       \* RowSumsAreTotal
-                /\ truth' = t1 /\ total' = total + ev.w
+                /\ \A i \in DOMAIN ev.rowsums : ev.rowsums[i] = tot1       \* RowSumsAreTotal
+                /\ truth' = t1 /\ total' = tot1
           /\ depth' = depth /\ l' = l + 1
 Next == Begin \/ Update
 Spec == Init /\ [][Next]_<<l, truth, total, depth>>
